@@ -37,13 +37,13 @@ func filterImage(image bufimage.Image, options *imageFilterOptions) (bufimage.Im
 	// All excludes are added first, then includes walk included all non excluded types.
 	// TODO: consider supporting a glob syntax of some kind, to do more advanced pattern
 	//   matching, such as ability to get a package AND all of its sub-packages.
-	for excludeType := range options.excludeTypes {
+	for _, excludeType := range sortedKeys(options.excludeTypes) {
 		excludeType := protoreflect.FullName(excludeType)
 		if err := closure.excludeType(excludeType, imageIndex, options); err != nil {
 			return nil, err
 		}
 	}
-	for includeType := range options.includeTypes {
+	for _, includeType := range sortedKeys(options.includeTypes) {
 		includeType := protoreflect.FullName(includeType)
 		if err := closure.includeType(includeType, imageIndex, options); err != nil {
 			return nil, err
@@ -114,6 +114,15 @@ func filterImage(image bufimage.Image, options *imageFilterOptions) (bufimage.Im
 	// Reverse the image files back to DAG order.
 	slices.Reverse(newImageFiles)
 	return bufimage.NewImage(newImageFiles)
+}
+
+func sortedKeys(m map[string]struct{}) []string {
+	keys := make([]string, 0, len(m))
+	for key := range m {
+		keys = append(keys, key)
+	}
+	sort.Strings(keys)
+	return keys
 }
 
 func filterImageFile(
